@@ -37,6 +37,10 @@ for txt in sorted(glob.glob(EVAL + '/C*_?.txt')):
         continue
     os.makedirs(dst, exist_ok=True)
     shutil.copy(diff, os.path.join(dst, 'patch.diff'))
+    orig = os.path.join(d, 'mutant_%s.orig.diff' % x)
+    if os.path.exists(orig):
+        # the change was rebased by hand onto a later /repo HEAD (a fix: commit touched the same lines)
+        shutil.copy(orig, os.path.join(dst, 'patch.orig.diff'))
     for dm in demos:
         shutil.copy(dm, os.path.join(dst, os.path.basename(dm)))
     # the part of the agent's README about this mutant
@@ -61,6 +65,7 @@ for txt in sorted(glob.glob(EVAL + '/C*_?.txt')):
             'demonstration_fails_with_change': fail_with,
             'how': 'evalmutant.sh: fresh `git worktree` of /repo HEAD under /tmp; copy the demonstration, run it (passes); `git apply patch.diff`; `go build ./...`; run the demonstration (fails); `go test -vet=off -count=1 ./...` (passes); then `VERIF_REPO=<worktree> bin/verif check <prop> --tier quick`; worktree removed',
         },
+        'rebased_onto_later_head': os.path.exists(orig),
         'our_checks': checks,
         'detected_by': detected,
         'violation_classes_reported': sorted(set(classes)),
